@@ -1037,6 +1037,46 @@ def r1914(ctx):
             ctx.ok(rid, e2, "read_lammpstrj returns the whole box block (every column of the three rows)")
 
 
+def r1916(ctx):
+    """LAMMPS template editing changes exactly the requested entries: write_for_run substitutes a
+    variable in a line only when the variable is a whole word of the *template* line - membership
+    in `line.split()` taken before any substitution. A substring test on the line that is being
+    rewritten also fires inside a value that was just written (a run directory called
+    infretis_seed42 contains the placeholder infretis_seed) and rewrites that value."""
+    rid = "R-19.16"
+    f = ctx.tree.func(LAMMPS, "write_for_run")
+    fl = flow_of(f)
+    reps = [st for st in walk_local(f) if isinstance(st, ast.Assign) and isinstance(st.value, ast.Call) and isinstance(st.value.func, ast.Attribute) and st.value.func.attr == "replace" and len(st.targets) == 1 and isinstance(st.targets[0], ast.Name) and isinstance(st.value.func.value, ast.Name) and st.value.func.value.id == st.targets[0].id]
+    if not reps:
+        raise AnalysisError("R-19.16: write_for_run no longer substitutes with `line = line.replace(var, value)` (cannot decide)")
+    cfg = fl.cfg
+    for st in reps:
+        linev = st.targets[0].id
+        var = st.value.args[0] if st.value.args else None
+        guards = [(e, t) for e, t, bn in cfg.guards(cfg.node_of(st)) if t and isinstance(e, ast.Compare) and len(e.ops) == 1 and isinstance(e.ops[0], ast.In) and var is not None and ast.unparse(e.left) == ast.unparse(var)]
+        if not guards:
+            ctx.bad(rid, st, f"write_for_run substitutes `{short(st, 50)}` without testing that the variable occurs in the line as a word", construct="write_for_run: unguarded replace")
+            continue
+        e = guards[0][0]
+        rhs = e.comparators[0]
+        r2 = rhs
+        if isinstance(rhs, ast.Name) and rhs.id != linev:
+            r2, _ = deref(fl, rhs, cfg.node_of(st))
+        is_tokens = isinstance(r2, ast.Call) and isinstance(r2.func, ast.Attribute) and r2.func.attr == "split" and isinstance(r2.func.value, ast.Name) and r2.func.value.id == linev
+        if isinstance(rhs, ast.Name) and rhs.id == linev or (isinstance(r2, ast.Name) and r2.id == linev):
+            ctx.bad(rid, e, f"write_for_run tests `{short(e, 40)}` - a substring test on the line that is being rewritten: a value written for an earlier variable that contains the name of a later one (a directory called infretis_seed42 and the placeholder infretis_seed) is rewritten too, so entries that were not requested change (the path of the initial configuration is corrupted)", construct="write_for_run: substring test on the rewritten line")
+        elif is_tokens:
+            # the token list must be taken before the inner loop over the variables (tokens of the template line)
+            tokdef = [d for d, sfx in fl.rd(rhs.id, cfg.node_of(st)) if not sfx] if isinstance(rhs, ast.Name) else []
+            inner = [L for L in loops_of(st) if isinstance(L, ast.For)]
+            if isinstance(rhs, ast.Name) and inner and all(id(d.stmt) not in {id(x) for x in ast.walk(inner[0])} for d in tokdef):
+                ctx.ok(rid, e, "a variable is substituted only when it is a whole word of the template line (tokens taken before any substitution)")
+            else:
+                ctx.bad(rid, e, f"write_for_run re-tokenises the line after substitutions (`{short(e, 40)}`): words of a value that was just written are matched as placeholders", construct="write_for_run: tokens of the rewritten line")
+        else:
+            raise AnalysisError(f"R-19.16: the occurrence test `{short(e, 40)}` of write_for_run is not one of the modelled forms (cannot decide)")
+
+
 def run(ctx):
     ctx.rule("R-19.6", "the flattened box matrix has the element order of the g96 BOX record (folded from the source, comprehensions included)", floor=1)
     ctx.rule("R-19.10", "input-template editing: writer and reader split `key <delim> value` with the same regular expression, whose key group is lazy (regex syntax trees compared)", floor=3)
@@ -1053,6 +1093,8 @@ def run(ctx):
     ctx.attempt(r199, ctx)
     ctx.rule("R-19.14", "the .lammpstrj box block is read whole (no column selection between the table read and the return): the writer writes whole rows", floor=1)
     ctx.attempt(r1914, ctx)
+    ctx.rule("R-19.16", "LAMMPS template editing is local: a variable is substituted only when it is a whole word of the template line (tokens taken before any substitution)", floor=1)
+    ctx.attempt(r1916, ctx)
     ctx.rule("R-19.15", "TRR frames decode for both byte orders: the byte order is exchanged exactly when the magic number differs as read (shared with C13 R-13.10)", floor=2)
     from .c13 import trr_byte_order
     ctx.attempt(trr_byte_order, ctx, "R-19.15", "")
@@ -1075,6 +1117,8 @@ def run(ctx):
 
 
 VARIANTS = [
+    B("c19-lammps-placeholder-substring-test", LAMMPS, "                    if var in spl:", "                    if var in line:", "R-19.16", control=True, why="seeded C19_l"),
+    K("c19-keep-lammps-placeholder-tokens-renamed", LAMMPS, "                spl = line.split()\n", "                words = line.split()\n", also=[(LAMMPS, "                    if var in spl:", "                    if var in words:")]),
     B("c19-trr-coord-newbyteorder-discarded", GROMACS, '    if double:\n        fmt = f"{endian}{natoms * _DIM}d"\n    else:\n        fmt = f"{endian}{natoms * _DIM}f"\n    read = read_struct_buff(fileh, fmt)\n    mat = np.array(read)\n    mat.shape = (natoms, _DIM)', '    dtype = np.dtype(">f8" if double else ">f4")\n    if endian != ">":\n        dtype.newbyteorder(endian)\n    buff = fileh.read(natoms * _DIM * dtype.itemsize)\n    if not buff:\n        raise EOFError\n    mat = np.frombuffer(buff, dtype=dtype).astype(np.float64)\n    mat.shape = (natoms, _DIM)', "R-19.4", control=True, why="seeded C19_k"),
     K("c19-keep-trr-coord-frombuffer", GROMACS, '    if double:\n        fmt = f"{endian}{natoms * _DIM}d"\n    else:\n        fmt = f"{endian}{natoms * _DIM}f"\n    read = read_struct_buff(fileh, fmt)\n    mat = np.array(read)\n    mat.shape = (natoms, _DIM)', '    dtype = np.dtype(f"{endian}f8" if double else f"{endian}f4")\n    buff = fileh.read(natoms * _DIM * dtype.itemsize)\n    if not buff:\n        raise EOFError\n    mat = np.frombuffer(buff, dtype=dtype).astype(np.float64)\n    mat.shape = (natoms, _DIM)'),
     K("c19-keep-trr-coord-newbyteorder-assigned", GROMACS, '    if double:\n        fmt = f"{endian}{natoms * _DIM}d"\n    else:\n        fmt = f"{endian}{natoms * _DIM}f"\n    read = read_struct_buff(fileh, fmt)\n    mat = np.array(read)\n    mat.shape = (natoms, _DIM)', '    dtype = np.dtype("f8" if double else "f4")\n    dtype = dtype.newbyteorder(endian)\n    buff = fileh.read(natoms * _DIM * dtype.itemsize)\n    if not buff:\n        raise EOFError\n    mat = np.frombuffer(buff, dtype=dtype).astype(np.float64)\n    mat.shape = (natoms, _DIM)'),
